@@ -44,6 +44,10 @@ var vfCodecNames = []string{"", "proto", "json"}
 
 // vfSynth builds the request a conforming client of tuple a would send, plus
 // the runner's expectation headers for tuple e.
+// vfSpelling selects how the same request is written: 0 plain; 1 the identity encoding is stated explicitly;
+// 2 the sub-format "+proto" is left out of gRPC / gRPC-Web content types (it is the default)
+var vfSpelling int
+
 func vfSynth(a, e vfTup, name string) *http.Request {
 	method := "POST"
 	if a.Get {
@@ -58,13 +62,23 @@ func vfSynth(a, e vfTup, name string) *http.Request {
 	enc := func(hdr string) {
 		if a.Comp != 1 {
 			h.Set(hdr, vfCompNames[a.Comp])
+		} else if vfSpelling == 1 {
+			h.Set(hdr, "identity")
 		}
+	}
+	bare := func(ct string) string {
+		if vfSpelling == 2 && a.Codec == 1 {
+			return strings.TrimSuffix(ct, "+proto")
+		}
+		return ct
 	}
 	switch {
 	case a.Get:
 		q := url.Values{"encoding": {vfCodecNames[a.Codec]}, "connect": {"v1"}, "message": {""}}
 		if a.Comp != 1 {
 			q.Set("compression", vfCompNames[a.Comp])
+		} else if vfSpelling == 1 {
+			q.Set("compression", "identity")
 		}
 		req.URL.RawQuery = q.Encode()
 		req.Body = http.NoBody
@@ -75,11 +89,11 @@ func vfSynth(a, e vfTup, name string) *http.Request {
 		h.Set("Content-Type", "application/connect+"+vfCodecNames[a.Codec])
 		enc("Connect-Content-Encoding")
 	case a.Proto == 2:
-		h.Set("Content-Type", "application/grpc+"+vfCodecNames[a.Codec])
+		h.Set("Content-Type", bare("application/grpc+"+vfCodecNames[a.Codec]))
 		h.Set("Te", "trailers")
 		enc("Grpc-Encoding")
 	case a.Proto == 3:
-		h.Set("Content-Type", "application/grpc-web+"+vfCodecNames[a.Codec])
+		h.Set("Content-Type", bare("application/grpc-web+"+vfCodecNames[a.Codec]))
 		enc("Grpc-Encoding")
 	}
 	if a.TLS {
@@ -231,8 +245,10 @@ func TestVerifC12Matrix(t *testing.T) {
 				continue
 			}
 			a.Stream = stream
-			for _, e := range exps {
+			for ei, e := range exps {
 				rep.Eval(1)
+				vfSpelling = (ei + a.Ver + a.Comp) % 3
+				rep.Count(fmt.Sprintf("spelling_%d", vfSpelling), 1)
 				p := &internal.SimplePrinter{}
 				called := false
 				h := referenceServerChecks(http.HandlerFunc(func(http.ResponseWriter, *http.Request) { called = true }), p)
@@ -250,6 +266,7 @@ func TestVerifC12Matrix(t *testing.T) {
 			}
 		}
 	}
+	vfSpelling = 0
 	rep.Distinct = rep.Evaluations
 	rep.Exhaustive = true
 	rep.Sample(map[string]any{"actual": vfTup{Ver: 2, Proto: 2, Codec: 1, Comp: 2}, "expected": vfTup{Ver: 2, Proto: 2, Codec: 2, Comp: 2}, "want_feedback": []string{"codec"}})
@@ -741,4 +758,75 @@ func TestVerifC12RepeatConcurrent(t *testing.T) {
 	}
 	rep.Sample(map[string]any{"name": "Repeat/concurrent/5", "simultaneous_requests": 7, "expect": "#2 #3 #4 #5 #6 #7, each once"})
 	rep.RequireMin("names_counted_exactly", 1)
+}
+
+type vfLockedBuf struct {
+	mu sync.Mutex
+	b  bytes.Buffer
+}
+
+func (l *vfLockedBuf) Write(p []byte) (int, error) {
+	l.mu.Lock()
+	defer l.mu.Unlock()
+	return l.b.Write(p)
+}
+
+// TestVerifC12PrinterConcurrent: feedback from many requests at once, through
+// the printer the real server uses (internal.NewPrinter): every line still
+// names its own test case.
+func TestVerifC12PrinterConcurrent(t *testing.T) {
+	rep := verifkit.Begin("C12", "printer-concurrent", "referenceServerChecks writing through internal.NewPrinter (the server's stderr printer); 16 goroutines x 150 requests, each with its own test-case name and exactly two deviating aspects (codec and compression); oracle: the output consists of whole lines '<name>: <message>', each name appears on exactly two lines (one per aspect); distinct = request")
+	defer rep.Write()
+	out := &vfLockedBuf{}
+	h := referenceServerChecks(http.HandlerFunc(func(http.ResponseWriter, *http.Request) {}), internal.NewPrinter(out))
+	const workers, per = 16, 150
+	var wg sync.WaitGroup
+	start := make(chan struct{})
+	for g := 0; g < workers; g++ {
+		wg.Add(1)
+		go func(g int) {
+			defer wg.Done()
+			<-start
+			for i := 0; i < per; i++ {
+				a := vfTup{Ver: 2, Proto: 1, Codec: 1, Comp: 1, Stream: true}
+				e := a
+				e.Codec, e.Comp = 2, 2
+				h(httptest.NewRecorder(), vfSynth(a, e, fmt.Sprintf("Printer/worker %d/request %d", g, i)))
+			}
+		}(g)
+	}
+	close(start)
+	wg.Wait()
+	out.mu.Lock()
+	text := out.b.String()
+	out.mu.Unlock()
+	perName := map[string][]string{}
+	bad := 0
+	for _, line := range strings.Split(strings.TrimSuffix(text, "\n"), "\n") {
+		parts := strings.SplitN(line, ": ", 2)
+		if len(parts) != 2 || !strings.HasPrefix(parts[0], "Printer/worker ") || strings.Contains(parts[1], "Printer/worker ") {
+			bad++
+			if bad <= 3 {
+				rep.Violation("checks/printer/garbled-line", fmt.Sprintf("feedback line is not of the form '<name>: <message>': %q", verifkit.Trunc(line, 200)), nil)
+			}
+			continue
+		}
+		perName[parts[0]] = append(perName[parts[0]], vfAspect(parts[1]))
+	}
+	for g := 0; g < workers; g++ {
+		for i := 0; i < per; i++ {
+			name := fmt.Sprintf("Printer/worker %d/request %d", g, i)
+			rep.Eval(1)
+			rep.DistinctKey(name)
+			got := perName[name]
+			sort.Strings(got)
+			if strings.Join(got, ",") != "codec,compression" {
+				rep.Violation("checks/printer/feedback-misattributed", fmt.Sprintf("%q deviates in codec and compression; the lines carrying its name talk about %q", name, got), nil)
+			} else {
+				rep.Count("printer_names_ok", 1)
+			}
+		}
+	}
+	rep.Sample(map[string]any{"concurrent_requests": workers * per, "expect": "two whole lines per name"})
+	rep.RequireMin("printer_names_ok", 1)
 }
